@@ -9,10 +9,12 @@
 import AdaptixModel.Gen.Quote
 import AdaptixModel.Gen.Names
 import AdaptixModel.Gen.Skeleton
+import AdaptixModel.Gen.CtorCall
 import AdaptixModel.Generated.C19Sites
 import AdaptixProofs.Lemmas.Quote
 import AdaptixProofs.Lemmas.QuoteNames
 import AdaptixProofs.Lemmas.QuoteSkeleton
+import AdaptixProofs.Lemmas.QuoteCtorCall
 
 namespace Adaptix.Gen.C19
 
@@ -926,6 +928,99 @@ theorem function_name_witness :
         { occupied := [[99, 108, 97, 115, 115, 95]] } [99, 108, 97, 115, 115, 33] 7 5).isSome = true := by decide +kernel
     obtain ⟨⟨name, ns'⟩, h⟩ := Option.isSome_iff_exists.mp hsome
     exact ⟨name, ns', h, mangled_name_is_identifier (fun c => isIdCont c) (by decide) hd _ _ _ _ _ _ _ h⟩
+
+/-! ## 5. constructor parameter names: a name of its own, passed as data
+
+  `Param(field_id, name, kind)`: for a pydantic alias, an attrs private attribute or a hand-made shape the parameter
+  name is NOT the field id.  Its legal domain is `str.isidentifier()` — keywords and identifiers the parser rewrites
+  (NFKC) included. -/
+
+/-- **The constructor receives every loaded field under exactly the name of its parameter.**
+    For every list of parameters — names arbitrary Python strings, independent of the field ids; any kinds, any
+    parameters left out — the text `_gen_constructor_call` writes is lexed into one token per piece, and the parser's
+    reading of these tokens (`parseCall`: a `NAME=` keyword is refused when NAME is a Python keyword and delivered
+    NFKC-normalised otherwise; a `**{'…': v}` entry is delivered untouched) is the call plan of the shape
+    (`expectedArgs`): positional while possible, then each value under the parameter's own name, then `**packed_fields`
+    / `**extra`.  No name can be refused by the parser, renamed by it, or change the number or order of the arguments.
+    `hs` / `hc`: an identifier character is an ASCII letter, digit, `_` or non-ASCII (validated on every run). -/
+theorem ctor_call_delivers (printable : Nat → Bool) (hp : SurrogatesNotPrintable printable)
+    (idStart idCont : Nat → Bool) (nfkc : Str → Str)
+    (hs : ∀ c, idStart c = true → isIdStart c = true) (hc : ∀ c, idCont c = true → isIdCont c = true)
+    (ind : Nat) (hasPacked : Bool) (extra : Option Str) (hextra : ∀ v, extra = some v → identLike v)
+    (ps : List CParam) (hname : ∀ p ∈ ps, Str.WF p.name) (hfid : ∀ p ∈ ps, ∀ c ∈ p.fieldId, isIdCont c = true) :
+    ∃ toks,
+      tokenize (render printable
+          (ctorCall (canBeKeywordArgName idStart idCont pyKeywords nfkc) ind hasPacked extra ps)) = some toks
+      ∧ parseCall pyKeywords nfkc toks
+          = some (constructorWord, expectedArgs false ps ++ expectedTail hasPacked extra) := by
+  generalize hcanKw : canBeKeywordArgName idStart idCont pyKeywords nfkc = canKw
+  have hok : ParamsOk canKw ps := by
+    intro p hpm
+    refine ⟨hname p hpm, hfid p hpm, fun hcan => ?_⟩
+    rw [← hcanKw] at hcan
+    simp [canBeKeywordArgName] at hcan
+    exact identLike_of_isIdentifier idStart idCont hs hc hcan.1.1
+  have hwf := ctorCall_wf canKw ind hasPacked extra ps hok hextra
+  refine ⟨_, lex_render printable hp _ hwf _ (Nat.le_refl _), ?_⟩
+  have hparse := parse_ctorArgs idStart idCont pyKeywords nfkc (ind + 4) ps false (ctorTail ind hasPacked extra) _
+    (parse_ctorTail pyKeywords nfkc ind hasPacked extra)
+  rw [hcanKw] at hparse
+  have hshape : (List.filterMap Piece.toTok (ctorCall canKw ind hasPacked extra ps)).filter (fun t => !t.isNl)
+      = Tok.name constructorWord :: Tok.op 40
+          :: argToks (ctorArgs canKw (ind + 4) false ps ++ ctorTail ind hasPacked extra) := by
+    simp [ctorCall, argToks, Piece.toTok, Tok.isNl]
+  unfold parseCall
+  rw [hshape]
+  simp [hparse]
+
+/-- an NFKC table for the witnesses: the ligature U+FB01 reads `fi`, fullwidth `ｃ` (U+FF43) reads `c` -/
+def demoNfkc : Str → Str :=
+  fun s => s.flatMap (fun c => if c = 0xFB01 then [102, 105] else if c = 0xFF43 then [99] else [c])
+
+/-- `(a, /, b0=…, class=…, ﬁ=…, *, data=…)` with fields `a, b0, class_, x, y`; `b0` is left out -/
+def demoParams : List CParam :=
+  [{ fieldId := codes "a", name := codes "a", kind := .posOnly, leftOut := false },
+   { fieldId := codes "b0", name := codes "b0", kind := .posOrKw, leftOut := true },
+   { fieldId := codes "class_", name := codes "class", kind := .posOrKw, leftOut := false },
+   { fieldId := codes "x", name := [0xFB01], kind := .posOrKw, leftOut := false },
+   { fieldId := codes "y", name := codes "data", kind := .kwOnly, leftOut := false }]
+
+/-- witness for `ctor_call_delivers`: all hypotheses hold together for the model's own identifier tables, a
+    non-trivial NFKC table and a parameter list with a keyword name, an NFKC-unstable name, a name that is a local of
+    the generated function, a left-out parameter and a positional one; the conclusion is the concrete plan:
+    `constructor(f_a, **{'class': f_class_}, **{'ﬁ': f_x}, data=f_y, **packed_fields)` -/
+theorem ctor_call_delivers_witness :
+    ∃ toks,
+      tokenize (render demoPrintable (ctorCall
+          (canBeKeywordArgName (fun c => isIdStart c) (fun c => isIdCont c) pyKeywords demoNfkc) 4 true none demoParams))
+        = some toks
+      ∧ parseCall pyKeywords demoNfkc toks
+          = some (constructorWord,
+              [Arg.pos (codes "f_a"), Arg.kw (codes "class") (codes "f_class_"), Arg.kw [0xFB01] (codes "f_x"),
+               Arg.kw (codes "data") (codes "f_y"), Arg.unpack packedFieldsWord]) := by
+  have h := ctor_call_delivers demoPrintable demoPrintable_ok (fun c => isIdStart c) (fun c => isIdCont c) demoNfkc
+    (fun _ h => h) (fun _ h => h) 4 true none (by simp) demoParams
+    (show ∀ p ∈ demoParams, ∀ c ∈ p.name, c < 0x110000 by decide) (by decide)
+  have hplan : expectedArgs false demoParams ++ expectedTail true none
+      = [Arg.pos (codes "f_a"), Arg.kw (codes "class") (codes "f_class_"), Arg.kw [0xFB01] (codes "f_x"),
+         Arg.kw (codes "data") (codes "f_y"), Arg.unpack packedFieldsWord] := by decide
+  rw [hplan] at h
+  exact h
+
+/-- the decision has to be taken on the parameter NAME.  Taking it on the field id (`class_` is a fine keyword
+    token, so `class=f_class_` is written) gives text the parser refuses … -/
+example : parseCall pyKeywords demoNfkc
+    ((ctorCall (fun _ => canBeKeywordArgName (fun c => isIdStart c) (fun c => isIdCont c) pyKeywords demoNfkc (codes "class_"))
+        4 false none [{ fieldId := codes "class_", name := codes "class", kind := .kwOnly, leftOut := false }]).filterMap
+      Piece.toTok) = none := by decide
+/-- … and for a name that is not NFKC-normalised the callee receives ANOTHER key than the shape declares -/
+example : parseCall pyKeywords demoNfkc
+    ((ctorCall (fun _ => true) 4 false none
+        [{ fieldId := codes "x", name := [0xFB01], kind := .kwOnly, leftOut := false }]).filterMap Piece.toTok)
+    = some (constructorWord, [Arg.kw (codes "fi") (codes "f_x")]) := by decide
+example : canBeKeywordArgName (fun c => isIdStart c) (fun c => isIdCont c) pyKeywords demoNfkc (codes "class") = false := by decide
+example : canBeKeywordArgName (fun c => isIdStart c) (fun c => isIdCont c) pyKeywords demoNfkc [0xFF43, 108] = false := by decide
+example : canBeKeywordArgName (fun c => isIdStart c) (fun c => isIdCont c) pyKeywords demoNfkc (codes "data") = true := by decide
 
 /-! ## non-vacuity -/
 
